@@ -367,9 +367,26 @@ end
 
 /-- for every head-count column of the shipped table: the option of that name is taken up by the dispatcher
     under `<column>_start`, and the herd loader maps that key back to exactly that column -/
+def headOK (col : String) : Bool :=
+  headConstKey col == some (col ++ "_start") && loaderColumn (col ++ "_start") == some col
+
+theorem head_part1 : (headColumns.take 7).all headOK = true := by decide +kernel
+theorem head_part2 : ((headColumns.drop 7).take 7).all headOK = true := by decide +kernel
+theorem head_part3 : (headColumns.drop 14).all headOK = true := by decide +kernel
+
 theorem C13_head_override_name :
     ∀ col ∈ headColumns, headConstKey col = some (col ++ "_start") ∧ loaderColumn (col ++ "_start") = some col := by
-  decide +kernel
+  intro col hc
+  have hsplit : headColumns = headColumns.take 7 ++ ((headColumns.drop 7).take 7 ++ headColumns.drop 14) := by
+    rw [← List.drop_drop, List.take_append_drop, List.take_append_drop]
+  rw [hsplit] at hc
+  have : headOK col = true := by
+    rcases List.mem_append.mp hc with h | h
+    · exact List.all_eq_true.mp head_part1 col h
+    · rcases List.mem_append.mp h with h | h
+      · exact List.all_eq_true.mp head_part2 col h
+      · exact List.all_eq_true.mp head_part3 col h
+  simpa [headOK] using this
 
 /-- the same for every present or future species: any column name ending in `_head` -/
 theorem C13_head_override_name_general (p : String) :
@@ -387,11 +404,22 @@ theorem C13_head_override_name_general (p : String) :
 
 /-- nothing but the override writes a key the herd loader would pick up, and the species table, the
     head-count columns and the slaughter columns fit together -/
+def noLoaderKey (i : SetterInfo) : Bool := i.writes.all fun p => !hasSub p loaderNeedle
+theorem nokey_part1 : (setters.take 2).all noLoaderKey = true := by decide +kernel
+theorem nokey_part2 : (setters.drop 2).all noLoaderKey = true := by decide +kernel
+
 theorem C13_head_keys_only_from_override :
-    (setters.all fun i => i.writes.all fun p => !hasSub p loaderNeedle) = true ∧
+    (∀ i ∈ setters, ∀ p ∈ i.writes, hasSub p loaderNeedle = false) ∧
     (dispatchStmts dispatch).all (fun st => st.writes.all fun p => !hasSub p loaderNeedle) = true ∧
     headColumns = speciesNames.map (· ++ "_head") := by
-  decide +kernel
+  refine ⟨?_, by decide +kernel, by decide +kernel⟩
+  intro i hi p hp
+  rw [← List.take_append_drop 2 setters] at hi
+  have : noLoaderKey i = true := by
+    rcases List.mem_append.mp hi with h | h
+    · exact List.all_eq_true.mp nokey_part1 i h
+    · exact List.all_eq_true.mp nokey_part2 i h
+  simpa using List.all_eq_true.mp this p hp
 
 /-- **the defect that was repaired (D4)**: Python's `key.strip("_start")` strips *characters*; for three
     species it does not give the column back -/
